@@ -89,7 +89,7 @@ def main(tier, replay=None):
     total = 12 if q else 30
     jobs = []
     for si, seed in enumerate(seeds):
-        for n, moves, cap in ((4, None, None), (5, ["sh", "sh", "wf", "wf", "sh"], 4.25)):
+        for n, moves, cap in ((4, None, None), (5, ["sh", "sh", "wf", "wf", "sh"], 3.75)):
             splits = range(1, total) if (q and si < 3) or (not q) else [rnd.randrange(1, total)]
             for k in splits:
                 jobs.append((len(jobs), n, total, [k, total], seed, moves, cap))
